@@ -153,3 +153,139 @@ Print Assumptions C07_token_non_blocking_refuted.
 (* C07_threshold_chain (observation F13b, not a theorem): commit reports are read from the destination chain but
    merge_commits uses the threshold of the SOURCE key k ([In (k, f) fchain] above), and nonces / costly ids use
    [f_dest dest fchain], which is 0 (one reporter suffices) when fChain has no entry for the destination. *)
+
+(* ===================== System level: one whole cycle of one DON (Model/ExecSys.v, Proofs/ExecSysP.v) =====================
+   [exec_round] is Plugin.Outcome composed from the models of C07 (merges), C08 (report builder) and the state
+   machine; a cycle is three successful rounds GetCommitReports -> GetMessages -> Filter.  Observations carry full
+   items ([xcommit] = id, timestamp, commit data; [xmsg] = id, message); [quorum items thr aos x]: there is a
+   duplicate-free list of at least thr oracles which is EXACTLY the set of oracles whose observation holds the full
+   item x among [items observation].  [sys_validated]: every observation is a well-formed map structure that passed
+   Plugin.ValidateObservation; [key_functional]: two observed items with the same id (sha3 of the rendering) are the
+   same item.  hash / zero / leaf_hash / enc_size / tree_gas / limits: the oracles of the report builder (C08). *)
+Require Import Verif.Model.Merkle Verif.Model.ExecReport Verif.Model.ExecSys Verif.Proofs.ExecSysP.
+Require Verif.Proofs.ExecReportP.
+
+(* C07_used_needs_quorum_cycle.  For EVERY cycle (any builder oracles, any F, any fChain maps - one per round -, any
+   validated observation lists of distinct oracles, any previous outcome): if message mm is in a chain report r of the
+   execute report produced by the Filter round, then
+   (i)   its commit report x (root, interval, source chain, executed list, timestamp: the full item) was reported
+         identically by >= f_j + 1 distinct oracles in the GetCommitReports round, where j is the CHAIN KEY the report was
+         filed under - not the destination's f (commit reports are destination data) and not necessarily the report's
+         own source chain: ValidateObservation checks neither (see C09_cycle_liveness_poisoned_refuted for what that
+         allows); the chain report was built from exactly that pending report, carried unchanged through the GetMessages
+         outcome, and the message lies in its interval;
+   (c)   mm is not executed according to that agreed commit report;
+   (ii)  the message xm (full content, id) was reported identically by >= f_k + 1 distinct oracles under its own source
+         chain key k in the GetMessages round;
+   (iii) the token data used for it is ready and is either token data the agreed commit data already carried or the
+         merged entry of a sequence number s of the report's interval, each slot reported by >= f_k + 1 oracles at
+         (k, s, slot) - the builder compares list lengths only; that s is mm's own sequence number is
+         C07_token_data_cycle below;
+         fewer than f_dest + 1 oracles flagged it too costly (C07_not_costly_cycle);
+   (iv)  if mm is sequenced, its sender's on-chain nonce handed to the builder was reported by >= f_dest + 1 distinct
+         oracles in the Filter round. *)
+Theorem C07_used_needs_quorum_cycle :
+  forall (hash : N -> N -> N) (zero : N) (leaf_hash : ExecReport.msg -> option N) (enc_size : creport -> option N)
+         (tree_gas : N -> N) (max_size max_gas : N) (nonce_key : EM.nonce_t -> N)
+         (sup : N -> list N) (bigF : Z) (dest : N) (fc1 fc2 fc3 : list (N * Z))
+         (prev o1 o2 o3 : outcome) (aos1 aos2 aos3 : list sao),
+  NoDup (map fst aos1) -> NoDup (map fst aos2) -> NoDup (map fst aos3) ->
+  sys_validated sup dest fc1 aos1 -> sys_validated sup dest fc2 aos2 -> sys_validated sup dest fc3 aos3 ->
+  key_functional aos1 -> key_functional aos2 ->
+  exec_round hash zero leaf_hash enc_size tree_gas max_size max_gas nonce_key bigF dest fc1 prev aos1 = Ok o1 ->
+  o_state o1 = 2%N ->
+  exec_round hash zero leaf_hash enc_size tree_gas max_size max_gas nonce_key bigF dest fc2 o1 aos2 = Ok o2 ->
+  exec_round hash zero leaf_hash enc_size tree_gas max_size max_gas nonce_key bigF dest fc3 o2 aos3 = Ok o3 ->
+  forall (r : creport) (mm : ExecReport.msg), In r (o_report o3) -> In mm (r_msgs r) ->
+    ExecReport.m_src mm = r_src r /\
+    exists (x : xcommit) (j : N) (fj : Z) (cd2 : cdata) (xm : xmsg) (fk : Z) (i p : nat) (td : tokdata),
+      In (j, fj) fc1 /\ quorum (xcommits_of j) (f_plus_1 fj) aos1 x /\
+      c_src (xc_cd x) = r_src r /\
+      PS.in_range (c_start (xc_cd x)) (c_end (xc_cd x)) (ExecReport.m_seq mm) = true /\
+      In (xc_cd x) (o_pending o1) /\
+      In cd2 (o_pending o2) /\ ExecReportP.good_report hash zero leaf_hash cd2 r /\
+      c_src cd2 = c_src (xc_cd x) /\ ExecReport.c_root cd2 = ExecReport.c_root (xc_cd x) /\
+      c_start cd2 = c_start (xc_cd x) /\ c_end cd2 = c_end (xc_cd x) /\
+      ExecReport.c_exec cd2 = ExecReport.c_exec (xc_cd x) /\
+      memN (ExecReport.m_seq mm) (ExecReport.c_exec (xc_cd x)) = false /\
+      xm_msg xm = mm /\ In (r_src r, fk) fc2 /\ quorum (xmsgs_of (r_src r)) (f_plus_1 fk) aos2 xm /\
+      nth_error (c_msgs cd2) i = Some mm /\ nth_error (c_td cd2) i = Some td /\
+      nth_error (r_msgs r) p = Some mm /\ nth_error (r_td r) p = Some (td_bytes td) /\ td_ready td = true /\
+      length (c_td cd2) = length (c_msgs cd2) /\
+      (In td (c_td (xc_cd x)) \/
+       exists s slots, PS.in_range (c_start (xc_cd x)) (c_end (xc_cd x)) s = true /\ td = to_td slots /\
+         forall n t, nth_error slots n = Some t ->
+           EM.t_ready t = true /\
+           exists f, alookup (r_src r) fc2 = Some f /\ quorum (xtok_of (r_src r) s n) (f_plus_1 f) aos2 t) /\
+      ~ In (ExecReport.m_id mm) (EM.merge_costly (EM.f_dest dest fc2) (to_aos aos2)) /\
+      (m_nonce mm = 0%N \/
+       exists v, quorum xnonces_of (f_plus_1 (EM.f_dest dest fc3)) aos3 (r_src r, m_sender mm, v)).
+Proof. exact cycle_message. Qed.
+Print Assumptions C07_used_needs_quorum_cycle.
+
+(* (iii), exact: when the pending reports agreed in the GetCommitReports round carry no token data (no honest oracle
+   observes commit data with token data: getPendingExecutedReports never fills MessageTokenData) and their interval
+   bounds are uint64 values, the token data used for mm is the merged entry of mm's OWN sequence number - by counting:
+   ConstructMerkleTree demands one message per sequence number of the interval, the builder demands as many token data
+   entries as messages - and each of its slots was reported, ready, by >= f_k + 1 distinct oracles at (k, seq, slot). *)
+Theorem C07_token_data_cycle :
+  forall (hash : N -> N -> N) (zero : N) (leaf_hash : ExecReport.msg -> option N) (enc_size : creport -> option N)
+         (tree_gas : N -> N) (max_size max_gas : N) (nonce_key : EM.nonce_t -> N)
+         (bigF : Z) (dest : N) (fc1 fc2 fc3 : list (N * Z)) (prev o1 o2 o3 : outcome) (aos1 aos2 aos3 : list sao),
+  NoDup (map fst aos2) ->
+  exec_round hash zero leaf_hash enc_size tree_gas max_size max_gas nonce_key bigF dest fc1 prev aos1 = Ok o1 ->
+  exec_round hash zero leaf_hash enc_size tree_gas max_size max_gas nonce_key bigF dest fc2 o1 aos2 = Ok o2 ->
+  exec_round hash zero leaf_hash enc_size tree_gas max_size max_gas nonce_key bigF dest fc3 o2 aos3 = Ok o3 ->
+  forall (r : creport) (mm : ExecReport.msg), In r (o_report o3) -> In mm (r_msgs r) ->
+  (forall cd, In cd (o_pending o1) -> c_td cd = [] /\ (c_start cd < two64)%N /\ (c_end cd < two64)%N) ->
+  exists p slots,
+    nth_error (r_msgs r) p = Some mm /\ nth_error (r_td r) p = Some (td_bytes (to_td slots)) /\
+    forall n t, nth_error slots n = Some t ->
+      EM.t_ready t = true /\
+      exists f, alookup (r_src r) fc2 = Some f /\
+                quorum (xtok_of (r_src r) (ExecReport.m_seq mm) n) (f_plus_1 f) aos2 t.
+Proof.
+  intros hash zero leaf_hash enc_size tree_gas max_size max_gas nonce_key bigF dest fc1 fc2 fc3 prev o1 o2 o3 aos1 aos2 aos3
+         ND2 R1 R2 R3 r mm.
+  exact (cycle_token_data hash zero leaf_hash enc_size tree_gas max_size max_gas nonce_key bigF dest fc2 fc3 o1 o2 o3
+           aos2 aos3 ND2 R2 R3 r mm).
+Qed.
+Print Assumptions C07_token_data_cycle.
+
+(* not flagged too costly by f_dest + 1: every set of distinct oracles that list the message's id in the GetMessages
+   round has at most f_dest members *)
+Theorem C07_not_costly_cycle :
+  forall (hash : N -> N -> N) (zero : N) (leaf_hash : ExecReport.msg -> option N) (enc_size : creport -> option N)
+         (tree_gas : N -> N) (max_size max_gas : N) (nonce_key : EM.nonce_t -> N)
+         (sup : N -> list N) (bigF : Z) (dest : N) (fc1 fc2 fc3 : list (N * Z))
+         (prev o1 o2 o3 : outcome) (aos1 aos2 aos3 : list sao),
+  NoDup (map fst aos1) -> NoDup (map fst aos2) -> NoDup (map fst aos3) ->
+  sys_validated sup dest fc1 aos1 -> sys_validated sup dest fc2 aos2 -> sys_validated sup dest fc3 aos3 ->
+  key_functional aos1 -> key_functional aos2 ->
+  exec_round hash zero leaf_hash enc_size tree_gas max_size max_gas nonce_key bigF dest fc1 prev aos1 = Ok o1 ->
+  o_state o1 = 2%N ->
+  exec_round hash zero leaf_hash enc_size tree_gas max_size max_gas nonce_key bigF dest fc2 o1 aos2 = Ok o2 ->
+  exec_round hash zero leaf_hash enc_size tree_gas max_size max_gas nonce_key bigF dest fc3 o2 aos3 = Ok o3 ->
+  forall (r : creport) (mm : ExecReport.msg) (rs : list N), In r (o_report o3) -> In mm (r_msgs r) ->
+  NoDup rs -> rs <> [] ->
+  (forall o, In o rs -> exists ob, In (o, ob) aos2 /\ In (ExecReport.m_id mm) (so_costly ob)) ->
+  (Z.of_nat (length rs) < EM.f_dest dest fc2 + 1)%Z.
+Proof. exact cycle_not_costly. Qed.
+Print Assumptions C07_not_costly_cycle.
+
+(* non-vacuity: a concrete cycle of four oracles (oracle 3 deviating in every round: another executed list, a variant
+   of message 5 and repeated costly flags, another nonce) on which every hypothesis above holds and whose report
+   holds both messages of the commit report *)
+Theorem C07_cycle_nonvacuous :
+  NoDup (map fst SysEx.aos1) /\ NoDup (map fst SysEx.aos2) /\ NoDup (map fst SysEx.aos3) /\
+  sys_validated SysEx.sup 9 SysEx.fc SysEx.aos1 /\ sys_validated SysEx.sup 9 SysEx.fc SysEx.aos2 /\
+  sys_validated SysEx.sup 9 SysEx.fc SysEx.aos3 /\
+  key_functional SysEx.aos1 /\ key_functional SysEx.aos2 /\
+  SysEx.Round 1 9%N SysEx.fc out_init SysEx.aos1 = Ok SysEx.o1 /\ o_state SysEx.o1 = 2%N /\
+  SysEx.Round 1 9%N SysEx.fc SysEx.o1 SysEx.aos2 = Ok SysEx.o2 /\
+  SysEx.Round 1 9%N SysEx.fc SysEx.o2 SysEx.aos3 = Ok SysEx.o3 /\
+  map (fun r => map ExecReport.m_seq (r_msgs r)) (o_report SysEx.o3) = [[5; 6]]%N /\
+  (forall cd, In cd (o_pending SysEx.o1) -> c_td cd = [] /\ (c_start cd < two64)%N /\ (c_end cd < two64)%N) /\
+  (forall cd, In cd (o_pending SysEx.o2) -> length (c_msgs cd) <= 256).
+Proof. exact SysEx.cycle_example. Qed.
+Print Assumptions C07_cycle_nonvacuous.
